@@ -466,6 +466,144 @@ def index_fetch_to_element_loop(fnode):
     return count
 
 
+# ---------------------------------------------------------------------------------------------------------------- N8
+NP_PURE = {'isfinite', 'isnan', 'isinf', 'unique', 'where', 'abs', 'absolute', 'sqrt', 'sum', 'nansum', 'nanmin', 'nanmax', 'nanmean', 'nanstd',
+           'min', 'max', 'mean', 'std', 'logical_and', 'logical_or', 'logical_not', 'array', 'asarray', 'arange', 'dtype', 'astype', 'ravel',
+           'reshape', 'flatten', 'copy', 'zeros', 'ones', 'empty', 'full', 'zeros_like', 'empty_like', 'full_like', 'ones_like', 'concatenate',
+           'hstack', 'vstack', 'stack', 'tile', 'repeat', 'linspace', 'percentile', 'nanpercentile', 'radians', 'degrees', 'sin', 'cos',
+           'arctan', 'arctan2', 'arcsin', 'tan', 'float32', 'float64', 'int32', 'int64', 'int8', 'uint8', 'finfo', 'iinfo', 'issubdtype',
+           'partial', 'tuple', 'list', 'dict', 'range', 'enumerate', 'zip', 'sorted', 'round', 'floor', 'ceil', 'items', 'values', 'keys',
+           'searchsorted', 'argsort', 'argmin', 'argmax', 'nonzero', 'flatnonzero', 'compress', 'extract', 'take', 'diff', 'cumsum', 'any', 'all',
+           'rechunk', 'to_delayed', 'from_array', 'squeeze', 'transpose', 'sel', 'isel', 'get', 'type'}
+
+
+def _pure8(e):
+    for x in ast.walk(e):
+        if isinstance(x, (ast.Compare, ast.BoolOp, ast.UnaryOp, ast.BinOp, ast.Name, ast.Constant, ast.Attribute, ast.Subscript, ast.Tuple,
+                          ast.Load, ast.operator, ast.unaryop, ast.boolop, ast.cmpop, ast.Slice, ast.List, ast.IfExp, ast.keyword, ast.Dict)):
+            continue
+        if isinstance(x, ast.Call):
+            f = x.func
+            nm = f.attr if isinstance(f, ast.Attribute) else (f.id if isinstance(f, ast.Name) else None)
+            if nm in PURE_CALLS or nm in NP_PURE:
+                continue
+            return False
+        return False
+    return True
+
+
+def inline_single_use_locals(fnode):
+    """N8 - *a named intermediate*.  `t = <pure expression>; ... f(t) ...` and `... f(<pure expression>) ...` are one program
+    when the local is assigned exactly once, read exactly once (not inside a nested function, lambda or comprehension), the
+    expression is pure (operators, names, attribute / subscript reads, calls of a list of value-only functions), nothing it
+    reads is written between the assignment and the read, and the read is not in a loop that the assignment is outside of
+    while something it reads is written in that loop.  The read is replaced by the expression and the assignment removed.
+    Parameters, names used in `global` / `nonlocal` statements and names that are deleted are left alone.  Returns the number
+    of locals substituted."""
+    total = 0
+    for _round in range(300):
+        own = _own(fnode)
+        a = fnode.args
+        params = {x.arg for x in a.posonlyargs + a.args + a.kwonlyargs} | ({a.vararg.arg} if a.vararg else set()) | ({a.kwarg.arg} if a.kwarg else set())
+        banned = set()
+        for n in own:
+            if isinstance(n, (ast.Global, ast.Nonlocal)):
+                banned |= set(n.names)
+        # names read inside nested scopes / comprehensions are left alone
+        for n in own:
+            if isinstance(n, (ast.Lambda, ast.FunctionDef, ast.AsyncFunctionDef, ast.ListComp, ast.SetComp, ast.DictComp, ast.GeneratorExp)):
+                banned |= {x.id for x in ast.walk(n) if isinstance(x, ast.Name)}
+        written = _written_names(own)
+        stores = {}
+        for nm, ln in written:
+            stores.setdefault(nm, []).append(ln)
+        loads = {}
+        for n in own:
+            if isinstance(n, ast.Name) and isinstance(n.ctx, ast.Load):
+                loads.setdefault(n.id, []).append(n)
+        parent = {}
+        for n in [fnode] + own:
+            for c in ast.iter_child_nodes(n):
+                parent[id(c)] = n
+
+        def stmt_of(n):
+            while n is not None and not isinstance(n, ast.stmt):
+                n = parent.get(id(n))
+            return n
+
+        def loops_of(n):
+            out = []
+            p = parent.get(id(n))
+            while p is not None and p is not fnode:
+                if isinstance(p, (ast.For, ast.While)):
+                    out.append(p)
+                p = parent.get(id(p))
+            return out
+        done = 0
+        for n in list(own):
+            if not (isinstance(n, ast.Assign) and len(n.targets) == 1 and isinstance(n.targets[0], ast.Name)):
+                continue
+            nm = n.targets[0].id
+            if nm in params or nm in banned or len(stores.get(nm, [])) != 1 or len(loads.get(nm, [])) != 1 or not _pure8(n.value) or \
+                    isinstance(n.value, ast.Constant):
+                continue
+            use = loads[nm][0]
+            holder = stmt_of(use)
+            if holder is None or holder is n or n.lineno >= holder.lineno or getattr(use, 'lineno', 0) < n.lineno:
+                continue
+            # the header of a loop / with is not a place to move an expression into; augmented targets are not reads to replace
+            if isinstance(holder, (ast.For, ast.While, ast.With)) and any(use is x for x in ast.walk(holder.iter if isinstance(holder, ast.For) else
+                                                                                             (holder.test if isinstance(holder, ast.While) else holder))):
+                if not isinstance(holder, ast.For):
+                    continue
+            reads = {x.id for x in ast.walk(n.value) if isinstance(x, ast.Name)}
+            if any(n.lineno < ln <= holder.lineno for r_ in reads for ln in stores.get(r_, [])):
+                continue
+            # an assignment that sits in a branch / loop the read is not in does not dominate it
+            pn, ph = parent.get(id(n)), None
+            anc = set()
+            q = parent.get(id(holder))
+            while q is not None:
+                anc.add(id(q))
+                q = parent.get(id(q))
+            if id(pn) not in anc and pn is not fnode:
+                continue
+            dl = {id(l) for l in loops_of(n)}
+            bad = False
+            for lp in loops_of(holder):
+                if id(lp) in dl:
+                    continue
+                inside = _written_names(list(ast.walk(lp)))
+                if any(w in reads for w, ln in inside):
+                    bad = True
+            if bad:
+                continue
+            # substitute and remove the assignment
+            par_use = parent.get(id(use))
+            new = ast.copy_location(copy.deepcopy(n.value), use)
+            replaced = False
+            for fld, val in ast.iter_fields(par_use):
+                if val is use:
+                    setattr(par_use, fld, new)
+                    replaced = True
+                elif isinstance(val, list):
+                    for i_, v_ in enumerate(val):
+                        if v_ is use:
+                            val[i_] = new
+                            replaced = True
+            if not replaced:
+                continue
+            for fld, val in ast.iter_fields(pn):
+                if isinstance(val, list) and any(v_ is n for v_ in val):
+                    val[:] = [v_ for v_ in val if v_ is not n] or [ast.copy_location(ast.Pass(), n)]
+            done += 1
+            break            # positions changed: recompute the tables
+        total += done
+        if not done:
+            break
+    return total
+
+
 def normalise_module(tree):
     n = 0
     for node in ast.walk(tree):
@@ -477,6 +615,11 @@ def normalise_module(tree):
     for node in ast.walk(tree):
         if isinstance(node, (ast.FunctionDef, ast.AsyncFunctionDef)):
             n += index_fetch_to_element_loop(node)
+    import os
+    if os.environ.get('XRSA_NO_N8') != '1':
+        for node in ast.walk(tree):
+            if isinstance(node, (ast.FunctionDef, ast.AsyncFunctionDef)):
+                n += inline_single_use_locals(node)
     for node in ast.walk(tree):
         if isinstance(node, (ast.FunctionDef, ast.AsyncFunctionDef)):
             n += inline_test_locals(node)
